@@ -349,3 +349,34 @@ Definition mv_get_minimal_generators (fuel : nat) (K : mvctx) (intent : ddict)
   | RErr k => MErr k
   | ROk ext_true => mv_loop fuel K intent bg bo ext_true pti pstart pstart
   end.
+
+(* ------------------------------------------------------------------ the by-name entry point
+   (use_indexes=False).  [snames] are the names of the pattern structures, in structure order
+   (= the order of the `pattern_types` dict, NOT of attribute_names); dicts are keyed by names.
+     intent_i       = {ps_i: intent[ps.name] for ps_i, ps in enumerate(structures) if ps.name in intent}
+     base_generator = the same translation, then list(items())
+     base_objects_i = [g_i for g_i, g in enumerate(object_names) if g in base_objects]
+     ps_to_iterate  = [ps_name_i_map[name] for name in ps_to_iterate]
+     result         = {structures[ps_i].name: descr ...} for every returned generator             *)
+Definition lookup_name {V} (d : list (nat * V)) (nm : nat) : option V :=
+  match find (fun kv => Nat.eqb (fst kv) nm) d with Some kv => Some (snd kv) | None => None end.
+
+Definition by_struct_names {V} (snames : list nat) (d : list (nat * V)) : list (nat * V) :=
+  flat_map (fun ps => match lookup_name d (nth ps snames 0) with Some v => [(ps, v)] | None => [] end)
+           (seq 0 (length snames)).
+
+Definition name_to_ps (snames : list nat) (nm : nat) : nat := default 0 (name_index snames nm).
+
+Definition rename_dd (snames : list nat) (d : ddict) : ddict :=
+  map (fun kv => (nth (fst kv) snames 0, snd kv)) d.
+
+Definition mv_get_minimal_generators_named (fuel : nat) (K : mvctx) (snames onames : list nat)
+           (intent : ddict) (base_gen : option ddict) (base : option (list nat))
+           (ps_to_iterate : option (list nat)) (pstart : nat) : mvres :=
+  let bg_i := match base_gen with Some d => Some (by_struct_names snames d) | None => None end in
+  let base_i := match base with Some l => Some (idx_of_names onames l) | None => None end in
+  let pti_i := match ps_to_iterate with Some l => Some (map (name_to_ps snames) l) | None => None end in
+  match mv_get_minimal_generators fuel K (by_struct_names snames intent) bg_i base_i pti_i pstart with
+  | MOk l => MOk (map (rename_dd snames) l)
+  | r => r
+  end.
